@@ -69,7 +69,10 @@ Definition cop_op (c : cop) : op :=
   end.
 
 (* observation after one operation *)
-Record obs1 := mkO { o_nsnaps : Z; o_changed : list Z; o_storemut : bool }.
+(* o_evbad: some change event received during the operation did not carry the stored old/new value
+   under the subscription's own read mask (reference projection computed by the harness), or an event
+   received earlier reads differently now *)
+Record obs1 := mkO { o_nsnaps : Z; o_changed : list Z; o_storemut : bool; o_evbad : bool }.
 
 Inductive c07case := KSeq (coll : bool) (ops : list cop) (obs : list obs1).
 
@@ -81,11 +84,11 @@ Definition is_read (c : cop) : bool :=
 
 Definition model_obs (st : state) (c : cop) : state * obs1 :=
   let st' := step fuel st (cop_op c) in
-  (st', mkO (zlen (snaps st')) (changed fuel st st') (if is_read c then store_changed st st' else false)).
+  (st', mkO (zlen (snaps st')) (changed fuel st st') (if is_read c then store_changed st st' else false) false).
 
 Definition obs_eqb (a b : obs1) : bool :=
   (o_nsnaps a =? o_nsnaps b) && list_eqb Z.eqb (o_changed a) (o_changed b)
-  && Bool.eqb (o_storemut a) (o_storemut b).
+  && Bool.eqb (o_storemut a) (o_storemut b) && Bool.eqb (o_evbad a) (o_evbad b).
 
 Fixpoint agrees_from (st : state) (ops : list cop) (obs : list obs1) : bool :=
   match ops, obs with
@@ -111,7 +114,7 @@ Definition agrees (c : c07case) : bool :=
 
 (* ---- the property on the observation ---- *)
 Definition ok_op (c : cop) (o : obs1) : bool :=
-  negb (o_storemut o)
+  negb (o_storemut o) && negb (o_evbad o)
   && match c with
      | CMutArg _ snap => forallb (Z.eqb snap) (o_changed o)   (* the caller changed its own message *)
      | _ => match o_changed o with [] => true | _ => false end
